@@ -83,6 +83,7 @@ func devCmd(args []string) {
 	safe := fs.Bool("safe", false, "include safety obligations")
 	timeout := fs.Duration("t", 10*time.Second, "timeout")
 	verbose := fs.Bool("v", false, "verbose")
+	cxs := fs.Bool("cx", false, "search counterexamples on the real code for failed obligations")
 	fs.Parse(args)
 	prop := fs.Arg(0)
 	start := time.Now()
@@ -116,6 +117,11 @@ func devCmd(args []string) {
 			}
 		}
 		counts[st]++
+		if *cxs && st != "unsat" && st != "ok(canary)" && r.res.cx == nil {
+			if cx := searchCounterexample(w, prop, r); cx != nil {
+				fmt.Printf("   CX %s confirmed=%v %s | %s\n", r.vc.Name, cx.Confirmed, cx.Observed, cx.How)
+			}
+		}
 		if *verbose || (st != "unsat" && st != "ok(canary)") {
 			fmt.Printf("%-12s %-70s %s %.2fs %s\n", st, r.vc.Name, r.res.Solver, r.res.Seconds, truncate(strings.ReplaceAll(r.res.Output, "\n", " "), 150))
 		}
